@@ -527,6 +527,7 @@ def run_conc(sc, st, ctx, out, sim):
             v2 = await inst.attr
             post.extend([v1, v2, n1 - n0, len(runs) - n1])
 
+        n_runs_before_after = len(runs)
         state.fail_armed[0] = False
         t2 = sim.spawn(after(), "after")
         run_sim(sim)
@@ -534,6 +535,18 @@ def run_conc(sc, st, ctx, out, sim):
             out.violate("C12.unusable_after_quiescence", sig, dict(describe(), error=repr(t2.error)))
         elif post[0] is not post[1] or post[3] != 0:
             out.violate("C12.not_served_from_cache_afterwards", sig, dict(describe(), post=repr(post)))
+        else:
+            last_del = dels[-1] if dels else 0
+            accessed_since = any(a[1] is not None and a[1] > last_del for a in awaits)
+            computed_since = [r for r in runs[:n_runs_before_after] if r["start"] > last_del]
+            if dels and not accessed_since and not computed_since and post[2] != 1:
+                # nothing touched the property after the last deletion: the next access recomputes - whatever a
+                # computation that was still in flight across the deletion has returned in the meantime
+                out.violate("C12.deletion_did_not_force_recompute", sig, dict(describe(), post=repr(post)))
+            elif any(r["status"] == "ok" for r in computed_since) and post[2] != 0:
+                # a computation begun after the last deletion returned a value: it is cached (a sibling run that
+                # failed or was cancelled later caches nothing, it does not un-cache either)
+                out.violate("C12.computed_value_not_cached", sig, dict(describe(), post=repr(post)))
     if sim.cancel_sent is not None:
         out.fault_free = False
         out.faults["cancel"] = 1
